@@ -47,27 +47,26 @@ def main():
             run(["git", "-C", "/repo", "worktree", "remove", "--force", wt])
     checks = [c for c in checks if not c.startswith("--")]
     if checks:
-        rc, o = run(["git", "-C", "/repo", "status", "--porcelain"])
-        if o.strip():
-            print("refusing: /repo not clean", file=sys.stderr)
-            sys.exit(2)
-        rc, o = run(["git", "-C", "/repo", "apply", patch])
-        if rc != 0:
-            out["checks"]["_apply"] = o
-        else:
-            try:
+        # the checks run against a scratch worktree with the change applied,
+        # never against /repo itself
+        rw = "/tmp/seedrepo-%d" % os.getpid()
+        run(["git", "-C", "/repo", "worktree", "add", "-q", "--detach", rw, "HEAD"])
+        try:
+            rc, o = run(["git", "apply", patch], cwd=rw)
+            if rc != 0:
+                out["checks"]["_apply"] = o
+            else:
                 for c in checks:
                     cid, _, tier = c.partition(":")
                     tier = tier or "quick"
                     t0 = time.time()
-                    rc, o = run(["./check", cid, "--tier", tier, "--no-evidence"], cwd=os.environ.get("VERIF_DIR", "/verif"), timeout=7200)
+                    rc, o = run(["./check", cid, "--tier", tier, "--no-evidence", "--repo", rw], cwd=os.environ.get("VERIF_DIR", "/verif"), timeout=7200)
                     viol = [l for l in o.splitlines() if l.startswith("VIOLATION")]
                     detail = [l.strip() for l in o.splitlines() if l.startswith("  harness=")][:3]
                     inc = [l for l in o.splitlines() if l.startswith("INCONCLUSIVE") or l.startswith("ENGINE-MISMATCH")][:3]
                     out["checks"][c] = {"exit": rc, "violations": len(viol), "detail": detail, "other": inc, "wall_s": round(time.time() - t0, 1)}
-            finally:
-                run(["git", "-C", "/repo", "checkout", "--", "."])
-                run(["git", "-C", "/repo", "clean", "-fdq"])
+        finally:
+            run(["git", "-C", "/repo", "worktree", "remove", "--force", rw])
     print(json.dumps(out, indent=1))
 
 main()
